@@ -173,6 +173,52 @@ class MockTLSSocket(ssl.SSLSocket):
         pass
 
 
+class Watchdog:
+    """M-WATCH for the in-process driver: the connection handler runs in the calling
+    thread, so a handler that never returns would hang the check.  A generous deadline
+    (60 s for a request that normally takes milliseconds); on expiry the reporter
+    registered by the check is called with the stack of the stuck thread and the process
+    exits -- a hang is a witness, not a silent time-out."""
+
+    def __init__(self):
+        self.deadline: typing.Optional[float] = None
+        self.desc: typing.Any = None
+        self.thread_id: typing.Optional[int] = None
+        self.reporter: typing.Optional[typing.Callable[[typing.Any, str], None]] = None
+        self.started = False
+        self.limit = float(os.environ.get("VF_HANG_SECONDS", "60"))
+
+    def arm(self, desc: typing.Any) -> None:
+        if not self.started:
+            self.started = True
+            threading.Thread(target=self._run, daemon=True).start()
+        self.desc = desc
+        self.thread_id = threading.get_ident()
+        self.deadline = time.monotonic() + self.limit
+
+    def disarm(self) -> None:
+        self.deadline = None
+
+    def _run(self) -> None:
+        import traceback as _tb
+
+        while True:
+            time.sleep(1.0)
+            d = self.deadline
+            if d is not None and time.monotonic() > d:
+                frame = sys._current_frames().get(self.thread_id)
+                stack = "".join(_tb.format_stack(frame)) if frame else "?"
+                try:
+                    if self.reporter:
+                        self.reporter(self.desc, stack)
+                finally:
+                    sys.stdout.flush()
+                    os._exit(1)
+
+
+WATCHDOG = Watchdog()
+
+
 class Response:
     __slots__ = ("data", "log", "escaped", "stderr", "elapsed", "hung", "tls_error", "protocol")
 
@@ -333,9 +379,11 @@ class Site:
         sys.stderr = cap
         t0 = time.monotonic()
         t.start()
+        WATCHDOG.arm({"request": data[:300], "tls": str(tls), "root": self.root})
         try:
             self.server.process_request_thread(srv_sock, addr)
         finally:
+            WATCHDOG.disarm()
             sys.stderr = old_stderr
         t.join(timeout + 5)
         if t.is_alive():
